@@ -24,8 +24,8 @@ type TokenCfg struct {
 type Config struct {
 	Profile   string     `json:"profile"`
 	NVals     int        `json:"n_vals"`
-	Stakes    []int64    `json:"stakes"`    // consensus power units (tokens = power * 1e6)
-	Keys      [][]bool   `json:"keys"`      // Keys[v][chainIdx]: delegate key registered at genesis
+	Stakes    []int64    `json:"stakes"` // consensus power units (tokens = power * 1e6)
+	Keys      [][]bool   `json:"keys"`   // Keys[v][chainIdx]: delegate key registered at genesis
 	NUsers    int        `json:"n_users"`
 	Tokens    []TokenCfg `json:"tokens"`
 	GravityID string     `json:"gravity_id"`
@@ -40,12 +40,12 @@ type Config struct {
 	AvgBscBlockMs        uint64 `json:"avg_bsc_block_ms"`
 	EthStartHeight       uint64 `json:"eth_start_height"`
 
-	Replicas       int   `json:"replicas"`
-	UnbondingSecs  int64 `json:"unbonding_secs"`
-	MaxValidators  uint32 `json:"max_validators"`
-	HolderTier     []int `json:"holder_tier"` // per user: -1 none, else tier index 0..5 (value exactly at tier), 6+ = just below tier k-6
-	WithPrices     bool  `json:"with_prices"` // oracle prices present at genesis
-	UserFunds      string `json:"user_funds"` // hub-side initial balance per bridged denom (backed by pre-locked custody)
+	Replicas      int    `json:"replicas"`
+	UnbondingSecs int64  `json:"unbonding_secs"`
+	MaxValidators uint32 `json:"max_validators"`
+	HolderTier    []int  `json:"holder_tier"` // per user: -1 none, else tier index 0..5 (value exactly at tier), 6+ = just below tier k-6
+	WithPrices    bool   `json:"with_prices"` // oracle prices present at genesis
+	UserFunds     string `json:"user_funds"`  // hub-side initial balance per bridged denom (backed by pre-locked custody)
 }
 
 func (c *Config) ChainIdx(chain string) int {
